@@ -28,9 +28,12 @@ def expected_nodes(spec, inst):
             if s['type'] in ('exist', 'notExist'):
                 # `x*`: the toolbox computes closure+, MAL says closure*; the reference gives the two bounds (flipped under
                 # the right operand of a difference) and any answer between them is accepted - as for the edges in C01
-                e = bool(ref.den(s['requires']['stepExpressions'][0], frozenset([a['id']]), False))
-                try: e_hi = bool(ref.den(s['requires']['stepExpressions'][0], frozenset([a['id']]), True))
-                except LookupError: e_hi = not e       # closure* starts from an asset that lacks a variable: no upper bound
+                try:
+                    e = bool(ref.den(s['requires']['stepExpressions'][0], frozenset([a['id']]), False))
+                    e_hi = bool(ref.den(s['requires']['stepExpressions'][0], frozenset([a['id']]), True))
+                except LookupError:
+                    # closure* starts from an asset that lacks a variable the operand uses: no bound on this side
+                    e = False if e is None else e; e_hi = not e
             out.append({'id': len(out), 'full_name': f"{a['name']}:{sn}", 'asset': a['name'], 'name': sn, 'type': s['type'],
                         'ttc': jtxt(s.get('ttc')), 'tags': list(s.get('tags') or []), 'mitre': (s.get('meta') or {}).get('mitre'),
                         'defense': d, 'exist': e, 'exist_hi': e_hi})
